@@ -5,7 +5,7 @@
    produces (Model.load, lemma load_is_gen), carrying run-time identities [rt] (instance, log, log length)
    per base name and replica number. *)
 From Coq Require Import List ZArith NArith Bool Permutation Lia.
-From PC.Replica Require Import Model Proofs Scale.
+From PC.Replica Require Import Model Proofs Scale Check MonLink.
 Import ListNotations.
 
 (* "numbered 0..n-1 with distinct names": for ALL n, two replicas of one process never share a name *)
@@ -129,3 +129,29 @@ Example C13_example :
   option_map inst (mfind (replica_name ex_web 10 9) m') = Some 7009%N /\
   map inst m' = [200; 7009; 300; 301; 302; 303; 304; 305; 306; 307; 308]%N.
 Proof. vm_compute. split; [discriminate|]. repeat split; reflexivity. Qed.
+
+(* ---------- monitor and model agree on names ---------------------------------------------------------
+   The check's monitor (Replica/Check.v) PARSES names: it strips "<base>-", demands a non-empty all-digit
+   suffix of one common width whose decimal value is the replica number.  The model PRINTS them
+   (CalculateReplicaName).  For every base, every n > 1 and every i < n the printed name parses back to i
+   with width = number of decimal digits of n; and the monitor's whole name clause accepts the n names the
+   model produces, for every n >= 1 (the bare name when n = 1). *)
+Theorem C13_monitor_name_parses : forall (b : bytes) (n i : nat), 1 < n -> i < n ->
+  let w := width (N.of_nat n) in
+  let s := pad w (N.of_nat i) in
+  strip_prefix (b ++ [45%N]) (replica_name b n i) = Some s /\
+  length s = w /\ w <> 0 /\ forallb is_digit s = true /\ parse_dec s = N.of_nat i.
+Proof. exact name_parses. Qed.
+Print Assumptions C13_monitor_name_parses.
+
+Theorem C13_monitor_names_accept_model : forall (bs : bytes) (n : nat) (B : list oent), 1 <= n ->
+  Forall2 (fun o i => name_view bs n i o) B (seq 0 n) -> names_ok bs n B = true.
+Proof. exact names_ok_accepts_model. Qed.
+Print Assumptions C13_monitor_names_accept_model.
+
+Example C13_monitor_names_example :
+  let mk i := mkO (replica_name ex_web 11 i) ex_web i 11 [] 0 0 0 0 0 0 0 0 [] [] 0 in
+  names_ok ex_web 11 (map mk (seq 0 11)) = true /\
+  names_ok ex_web 11 (map mk (seq 0 10)) = false /\
+  names_ok ex_web 11 (map (fun i => mkO (replica_name ex_web 9 i) ex_web i 11 [] 0 0 0 0 0 0 0 0 [] [] 0) (seq 0 11)) = false.
+Proof. vm_compute. repeat split; reflexivity. Qed.
